@@ -52,22 +52,43 @@ def main():
     t113 = "\n".join(out)
 
     out = ["| seeded change | what it does (one line) | needs | suite | checks run -> verdict |", "|----|----|----|----|----|"]
-    for d in sorted(glob.glob(os.path.join(HERE, "seeded/C*/m*"))):
+    for d in sorted(glob.glob(os.path.join(HERE, "seeded/C*/[mnpr][0-9]"))):
         mp = os.path.join(d, "meta.json")
         if not os.path.exists(mp):
             continue
         m = json.load(open(mp))
         ran = m.get("ran", {})
-        verdicts = ", ".join(f"{k}: {v['verdict']}" + (" (no-failing-input-found)" if any("no-failing-input-found" in x for x in v.get("violation_lines", [])) else "")
-                             for k, v in sorted(ran.get("checks", {}).items()))
+        fin = m.get("final")
+        if fin:
+            if not fin.get("applies", True):
+                verdicts = "patch no longer applies to the repaired /repo; last scratch-worktree run: " + ", ".join(
+                    f"{k}: {v['verdict']}" for k, v in sorted(ran.get("checks", {}).items()))
+            else:
+                parts = []
+                for k, v in sorted(fin.get("checks", {}).items()):
+                    if v["exit"] != 0 and v["violation"]:
+                        parts.append(f"{k}: CAUGHT" + (" (no-failing-input-found)" if "no-failing-input-found" in v["violation"][0] else ""))
+                    else:
+                        parts.append(f"{k}: quiet")
+                verdicts = fin.get("verdict", "") + " — " + ", ".join(parts)
+            ran = dict(ran, suite=fin.get("suite", ran.get("suite", "")))
+        else:
+            verdicts = ", ".join(f"{k}: {v['verdict']}" + (" (no-failing-input-found)" if any("no-failing-input-found" in x for x in v.get("violation_lines", [])) else "")
+                                 for k, v in sorted(ran.get("checks", {}).items()))
         summ = (m.get("summary") or "").replace("|", "/").replace("\n", " ")
         needs = (m.get("needs") or "").replace("|", "/").replace("\n", " ")
         out.append(f"| {d.split('/')[-2]}/{d.split('/')[-1]} | {summ[:170]} | {needs[:150]} | {ran.get('suite', m.get('suite', ''))} | {verdicts} |")
     t114 = "\n".join(out)
+    out = ["| rewrite | what it does | checks run against it in /repo -> verdict |", "|----|----|----|"]
+    for d in sorted(glob.glob(os.path.join(HERE, "seeded/harmless/h*")), key=lambda x: int(x.rsplit("h", 1)[1])):
+        m = json.load(open(os.path.join(d, "meta.json")))
+        fin = m.get("final", {})
+        out.append(f"| {os.path.basename(d)} | {(m.get('summary') or '').replace('|', '/')[:200]} | {fin.get('verdict', 'not run')} ({len(fin.get('checks', {}))} checks, suite {fin.get('suite', '')[:10]}) |")
+    t115 = "\n".join(out)
 
     p = os.path.join(HERE, "DESIGN.md")
     s = open(p, encoding="utf-8").read()
-    for tag, body in (("STATUS", t113), ("SEEDED", t114)):
+    for tag, body in (("STATUS", t113), ("SEEDED", t114), ("HARMLESS", t115)):
         a, b = f"<!-- BEGIN {tag} -->", f"<!-- END {tag} -->"
         if a in s and b in s:
             s = s[:s.index(a) + len(a)] + "\n" + body + "\n" + s[s.index(b):]
